@@ -321,13 +321,26 @@ def scn_start(T, case):
     method, K = case["method"], case["K"]
     handed = {}
 
+    def first_requests(kw, kind):
+        # the algorithm issues its first requests WHILE start() runs (not after it returned)
+        fun = kw["fun"] if kind == "minimize" else kw["func"]
+        handed["got"] = fun(kw["x0"])
+        handed["calls_after_first_objective"] = list(calls)
+        cons = kw.get("constraints") or ()
+        if cons:
+            handed["gotc"] = cons[0]["fun"](kw["x0"])
+        if kind == "minimize" and kw.get("jac") not in (None, False):
+            handed["gotg"] = kw["jac"](kw["x0"])
+
     def fake_minimize(**kw):
         handed.update(kw)
         handed["kind"] = "minimize"
+        first_requests(kw, "minimize")
 
     def fake_de(**kw):
         handed.update(kw)
         handed["kind"] = "de"
+        first_requests(kw, "de")
 
     stubs = {(MS, "minimize"): fake_minimize, (MS, "differential_evolution"): fake_de}
     saved = None
@@ -346,6 +359,7 @@ def scn_start(T, case):
         cls = T.func(MS, "SciPyOptimizer")
         NC = T.func(MU, "NormalizedConstraints")
     try:
+        calls = []
         Fold, Gold = _F(T, K)
         fs = [T.uf("Fnew%d" % j, N) for j in range(1 + K)]
         gs = [[T.uf("Gnew%d_%d" % (j, i), N) for i in range(N)] for j in range(1 + K)]
@@ -355,7 +369,6 @@ def scn_start(T, case):
             # every variable is free: the optimizer sees the whole point, so the ensemble of this run is the same function of
             # what the optimizer sees as before (only the value clauses are required then, not a fresh evaluation)
             Fnew, Gnew = Fold, Gold
-        calls = []
 
         def callback(variables, *, return_functions, return_gradients):
             calls.append((return_functions, return_gradients))
@@ -387,20 +400,16 @@ def scn_start(T, case):
         T.prove("C07.start.an_algorithm_is_started", "kind" in handed)
         if "kind" not in handed:
             return
-        fun = handed["fun"] if handed["kind"] == "minimize" else handed["func"]
         T.prove("C07.start.starting_point_is_the_free_part_of_the_initial_values", T.same(handed["x0"], x0free))
-        got = fun(handed["x0"])
-        T.prove("C07.start.first_objective_of_a_run_is_the_value_of_this_run", T.same(got, Fnew(x0free)[0]))
+        T.prove("C07.start.first_objective_of_a_run_is_the_value_of_this_run", T.same(handed["got"], Fnew(x0free)[0]))
         if case["mask"] is not None:
-            T.prove("C07.start.first_request_of_a_run_is_evaluated", sum(1 for rf, rg in calls if rf) == 1)
+            T.prove("C07.start.first_request_of_a_run_is_evaluated", sum(1 for rf, rg in handed["calls_after_first_objective"] if rf) == 1)
         if K:
-            gotc = opt._fun(handed["x0"], 0, None)
             ref = NC(np.array(nlb), np.array(nub))
             ref.set_constraints(Fnew(x0free)[1:])
-            T.prove("C07.start.first_constraint_value_of_a_run_is_the_value_of_this_run", T.same(gotc, ref.constraints[0, :]))
+            T.prove("C07.start.first_constraint_value_of_a_run_is_the_value_of_this_run", "gotc" in handed and T.same(handed["gotc"], ref.constraints[0, :]))
         if method not in NO_GRADIENT:
-            gotg = handed["jac"](handed["x0"])
-            T.prove("C07.start.first_gradient_of_a_run_is_the_gradient_of_this_run", T.same(gotg, Gnew(x0free)[0, :]))
+            T.prove("C07.start.first_gradient_of_a_run_is_the_gradient_of_this_run", "gotg" in handed and T.same(handed["gotg"], Gnew(x0free)[0, :]))
     finally:
         if saved is not None:
             for k, v in saved.items():
@@ -503,6 +512,25 @@ def scn_transformed_requests(T, case):
     C06.scn_requests(T, case)
 
 
+# ------------------------------------------------------------------------------------ the evaluator's function cache, fixed variables included
+def cases_cached_function_point(tier):
+    from contracts import C02
+
+    for cid, c in C02.cases_gradient(tier):
+        if c.get("prior_function"):
+            yield cid, c
+
+
+def scn_cached_function_point(T, case):
+    """'Every gradient returned for a point x is the ensemble gradient computed at that same x': a gradient-only request is combined
+    with cached function values only when they were computed at the very same point - the same free AND fixed variables (a nested
+    optimization moves the fixed ones between the function and the gradient request); C02's request-sequence cases under this
+    property's prefix."""
+    from contracts import C02
+    from contracts.reuse import Renamed
+
+    C02.scn_gradient(Renamed(T, "C02.", "C07.function_cache."), case)
+
 SCENARIOS = [
     Scenario("optimizer_callables_from_any_state", scn_ops, cases_ops, {"quick": 3, "thorough": 20}),
     Scenario("evaluator_function_cache", scn_eval_cache, cases_eval_cache, {"quick": 5, "thorough": 30}),
@@ -512,6 +540,7 @@ SCENARIOS = [
     Scenario("vectorized_population_objects_passed_to_scipy", scn_vectorized, cases_vectorized, {"quick": 2, "thorough": 10}),
     Scenario("completed_points", scn_completed, cases_completed, {"quick": 3, "thorough": 20}),
     Scenario("function_transforms_in_combined_and_split_requests", scn_transformed_requests, cases_transformed_requests, {"quick": 3, "thorough": 20}),
+    Scenario("cached_function_values_belong_to_the_requested_point", scn_cached_function_point, cases_cached_function_point, {"quick": 5, "thorough": 30}),
 ]
 
 MANIFEST = {
